@@ -39,6 +39,7 @@ def run(ctx):
     r7_sort_keys(ctx)
     r8_cache_per_environment(ctx)
     r9_reservoir_zero_uniform(ctx)
+    r10_scalar_contexts(ctx)
     c04.r6_replay_buffer(ctx, rule="C09.R1")
 
 
@@ -434,6 +435,31 @@ def r9_reservoir_zero_uniform(ctx, rule="C09.R9"):
     ctx.ob(rule, PF, "Reservoir.filter", fn, "the logarithm / power uses of the uniforms were located", None if n < 2 else True, stmt="uses located")
 
 
+def r10_scalar_contexts(ctx, rule="C09.R10"):
+    ctx.rule(rule, "scalar contexts (numbers, strings, None) are single values, not sequences: Sort's whole-context key is tuple(context) only for Dense/Sparse rows "
+                   "and the 1-tuple (context,) otherwise; Where counts a string context as one feature")
+    flt = ctx.fn(EF, "Sort.filter")
+    fulls = [l for l in walk_shallow(flt) if isinstance(l, ast.Lambda) and "self._keys" not in unparse(l) and "['context']" in unparse(l) and isinstance(parent(l), ast.Assign)
+             and any(isinstance(c, ast.Call) and call_name(c) == "tuple" for c in ast.walk(l))]
+    ctx.floor(rule, "whole-context sort keys in Sort.filter", len(fulls), 1)
+    for l in fulls:
+        b = l.body
+        ok = isinstance(b, ast.IfExp) and isinstance(b.body, ast.Call) and call_name(b.body) == "tuple" and isinstance(b.orelse, ast.Tuple) and len(b.orelse.elts) == 1
+        if ok:
+            t = b.test
+            # the test must establish "is a Dense/Sparse row", directly or through a local predicate
+            txt = unparse(t)
+            if isinstance(t, ast.Call) and isinstance(t.func, ast.Name):
+                txt += " " + " ".join(unparse(v) for v in assigned_value(flt, t.func.id))
+            ok = "Dense" in txt and "Sparse" in txt and "isinstance" in txt
+        ctx.ob(rule, EF, "Sort.filter", l, "the whole-context key is tuple(context) for rows and (context,) for scalar / None contexts", ok, stmt="Sort whole-context key")
+    cl = ctx.fn(EF, "Where._context_len")
+    strs = [x for x in walk_shallow(cl) if isinstance(x, ast.If) and "isinstance(" in unparse(x.test) and "str" in unparse(x.test) and any(isinstance(r, ast.Return) and unparse(r.value) == "1" for r in x.body)]
+    lens = [c for c in ast.walk(cl) if isinstance(c, ast.Call) and call_name(c) == "len"]
+    ok = bool(strs) and all(strs[0].lineno < c.lineno for c in lens)
+    ctx.ob(rule, EF, "Where._context_len", strs[0] if strs else cl, "a string context counts as one feature (tested before len() is applied)", ok, stmt="Where string context")
+
+
 def r7_sort_keys(ctx):
     ctx.rule("C09.R7", "Sort keeps the caller's key order: the keys are stored as given (flattened, not sorted/de-duplicated) and the sort key tuple "
                        "is built by iterating them in that order")
@@ -453,6 +479,8 @@ def r7_sort_keys(ctx):
 
 
 CONTROLS = [
+    ("Sort treats every context as a sequence", EF, M.replace_expr("Sort.filter", "tuple(interaction['context']) if is_row(interaction['context']) else (interaction['context'],)", "tuple(interaction['context'])"), "C09.R10"),
+    ("Where counts the characters of a string context", EF, M.delete_stmt("Where._context_len", M.text_has("if isinstance(context, str): return 1")), "C09.R10"),
     ("Reservoir takes log of a uniform that may be 0", PF, M.replace_expr("Reservoir.filter", "log(r2 or 2 ** (-31), 1 - W)", "log(r2, 1 - W)"), "C09.R9"),
     ("one Cache object for all environments", "coba/environments/core.py", M.replace_expr("Environments.cache", "Environments([Pipes.join(env, Cache(25)) for env in self._envs])", "self.filter(Cache(25))"), "C09.R8"),
     ("Sort de-duplicates its keys", EF, M.replace_expr("Sort.__init__", "list(pipes.Flatten().filter([list(keys)]))[0]", "sorted(set(list(pipes.Flatten().filter([list(keys)]))[0]), key=str)"), "C09.R7"),
